@@ -608,8 +608,13 @@ def encFaceAscii (c : Coding α) (f : WFace α) : Bytes :=
    | none => []
    | some uv => nm " 6 " ++ intercalate sp (uv.map c.showF)) ++ nl
 
-/-- the body `MeshWriter.Write` emits after the header -/
-def writeBody (c : Coding α) (cfg : WriterCfg) (m : MeshVal α) : R Bytes := do
+/-- writer.go:144-158 (fix 858df3c): a property is found again by its name, a single blank-delimited token of its header
+line — a name that is empty, holds white space (`strings.Fields(name) ≠ [name]`) or is used by two properties makes
+`Write` return an error before anything is written -/
+def namesOK (names : List Bytes) : Bool := names.all (fun n => fields n == [n]) && decide names.Nodup
+
+/-- the body `MeshWriter.Write` emits after the header, once the property names have been accepted -/
+def writeBodyCore (c : Coding α) (cfg : WriterCfg) (m : MeshVal α) : R Bytes := do
   let ws := selectWriters cfg m
   let tys := writerTypes ws
   let recs ← (List.range m.attrLen).mapM (vertexRecord m ws)
@@ -628,6 +633,10 @@ def writeBody (c : Coding α) (cfg : WriterCfg) (m : MeshVal α) : R Bytes := do
     | some tris => do
       let fs ← faceRecords m tris
       pure (vbytes.flatten ++ (fs.map (encFaceBin c f.endian)).flatten)
+
+/-- the body `MeshWriter.Write` emits after the header; `.error .err` when a property name is rejected -/
+def writeBody (c : Coding α) (cfg : WriterCfg) (m : MeshVal α) : R Bytes :=
+  if namesOK (((selectWriters cfg m).map WProp.names).flatten) then writeBodyCore c cfg m else .error .err
 
 /-- `MeshWriter.Write`: header then body -/
 def writeMesh (c : Coding α) (cfg : WriterCfg) (m : MeshVal α) : R Bytes := do
